@@ -96,11 +96,12 @@ def _abstract_ops(log, role, new):
         if e["kind"] == "denied":
             continue
         ops.append({"n": e["n"], "kind": e["kind"], "p": role(e["path"]), "p2": role(e["path2"]),
-                    "d": e.get("dclass", ""), "extra": e.get("extra", -1), "via": e.get("via", "")})
+                    "d": e.get("dclass", ""), "extra": e.get("extra", -1), "via": e.get("via", ""),
+                    "src": role(e.get("src", "")) if e.get("src") else ""})
     return ops
 
 
-def _label_writes(ops, new):
+def _label_writes(ops, new, oldlen=-1):
     """Name what each write leaves behind: a buffered write that brings the bytes written since the file was opened to
     exactly the new metafile's length completes it ("New"), one that stays below continues a prefix ("Partial", a
     streamed encoder writes many of those), anything else is "Other".  Direct writes report the file offset."""
@@ -112,6 +113,8 @@ def _label_writes(ops, new):
         elif o["kind"] == "write":
             cum[o["p"]] = cum.get(o["p"], 0) + max(0, o["extra"])
             o["d"] = "New" if cum[o["p"]] == n else ("Partial" if 0 < cum[o["p"]] < n else "Other")
+        elif o["kind"] == "dwrite" and o.get("via") == "sendfile" and o.get("src") == "M" and o["extra"] == oldlen:
+            o["d"] = "Old"          # a complete copy of the metafile as it was (a backup)
         elif o["kind"] == "dwrite":
             o["d"] = "New" if o["extra"] == n else "Other"
     return ops
@@ -215,7 +218,7 @@ def run_editfault(case):
         role = _role_fn(out, alias=alias[0])
         ref_ops = _abstract_ops(log["log"], role, new)
         # label what each write wrote: re-run once more un-faulted is unnecessary - sizes identify it
-        _label_writes(ref_ops, new)
+        _label_writes(ref_ops, new, len(old))
         rid = case["id"] * 1000
         recs.append({"id": rid, "op": "editfault", "clauses": case["clauses"], "ops": ref_ops,
                      "fault": {"at": 0, "kind": "none", "k": 0}, "status": status,
@@ -225,7 +228,7 @@ def run_editfault(case):
         k = 0
         for at in range(1, nops + 1):
             kinds = ["crash", "eacces", "enospc"]
-            if ref_ops[at - 1]["kind"] == "write" or ref_ops[at - 1].get("via") == "oswrite":
+            if ref_ops[at - 1]["kind"] == "write" or ref_ops[at - 1].get("via") in ("oswrite", "sendfile"):
                 kinds += ["torn", "torncrash"]        # (for os.write a torn write is a short count, not an error)
             # how much of a torn write reaches the disk: one byte; (thorough) also a few KiB and all but one byte
             plans = [(kind, 1) for kind in kinds]
@@ -237,7 +240,9 @@ def run_editfault(case):
                 status, log, out = one(plan)
                 role = _role_fn(out, alias=alias[0])
                 ops = _abstract_ops(log["log"], role, new)
-                _label_writes(ops, new)
+                _label_writes(ops, new, len(old))
+                if kind in ("torn", "torncrash") and ops and at <= len(ops) and ops[at - 1].get("via") == "sendfile":
+                    kk = max(0, ops[at - 1]["extra"])       # what the kernel really transferred before the error (0 at EOF)
                 recs.append({"id": rid + k, "op": "editfault", "clauses": case["clauses"], "ops": ops,
                              "fault": {"at": min(at, len(ops)) if ops else 0, "kind": kind, "k": kk},
                              "status": status, "final": _classify(out, old, new), "encodable": encodable,
@@ -391,8 +396,13 @@ def run_cmd(case):
                 argv += ["--meta-version", str(case["mver"])]
         elif cmd == "rename":
             target = os.path.join(work, "o", tree["name"] + ".torrent")
-            os.rename(meta, os.path.join(work, "o", "zz.torrent"))
-            meta = os.path.join(work, "o", "zz.torrent")
+            cur = "zz.torrent"
+            if case.get("case_twin") and tree["name"].swapcase() != tree["name"]:
+                # the metafile's current name differs from the wanted one only in letter case (another file on a
+                # case-sensitive filesystem)
+                cur = tree["name"].swapcase() + ".torrent"
+            os.rename(meta, os.path.join(work, "o", cur))
+            meta = os.path.join(work, "o", cur)
             if case.get("target_exists"):
                 with open(target, "wb") as fh:
                     fh.write(b"someone else's file")
